@@ -286,7 +286,6 @@ package router
 //@   ensures result == pForward ==> hopAt(p.hopField, s.Raw, hopOff(s)) && infoAt(p.infoField, s.Raw, infOff(s))
 //@   ensures s.PathMeta.SegLen == old(s.PathMeta.SegLen)
 //@   ensures int(hf)+1 < s.NumHops ==> arrUpd(s.Raw, 0, s.PathMeta.CurrINF<<6|s.PathMeta.CurrHF&0x3f, (s.PathMeta.SegLen[0]&0x3f)>>4, (s.PathMeta.SegLen[0]&0xf)<<4|(s.PathMeta.SegLen[1]&0x3f)>>2, (s.PathMeta.SegLen[1]&0x3)<<6|s.PathMeta.SegLen[2]&0x3f)
-//@   ensures int(hf)+1 >= s.NumHops ==> arrSame(s.Raw)
 
 //@ func (*scionPacketProcessor).processEgress
 //@   props C01 C07 C22
